@@ -341,7 +341,10 @@ C07Ties == { [st |-> Select(<<>>, All, ov, <<>>, NoLim), sid |-> sid] : ov \in {
            \cup { [st |-> Select(<<F(AKey, ""), F(Call1("int", AVal), "n")>>, All, <<O(2, d), O(1, FALSE)>>, <<>>, NoLim), sid |-> "S40"] : d \in BOOLEAN }
 C07Names == { [st |-> Select(<<F(AKey, "id"), F(AVal, "ID"), F(Call1("strlen", AVal), "Id")>>, All, ov, <<>>, NoLim), sid |-> "O"] :
                 ov \in { <<O(2, FALSE)>>, <<O(2, TRUE)>>, <<O(3, FALSE), O(1, TRUE)>>, <<O(1, TRUE)>> } }
-C07Cases == C07Ties \cup C07Names \cup C07Plain \cup C07Aggr \cup C07Mixed \cup C07Pt \cup C07BoolKey \cup C07Big
+\* an order key that is built on another select field's name (text and number)
+C07OnNames == { [st |-> Select(<<F(AKey, ""), F(AVal, "v"), F(ABin("+", AName("v"), AStr(<<120>>)), "w"), F(ABin("*", Call1("strlen", AName("v")), AInt(2)), "d")>>, ABin("!=", AVal, AStr(<<120>>)), ov, <<>>, NoLim), sid |-> "O"] :
+                  ov \in { <<O(3, FALSE)>>, <<O(3, TRUE)>>, <<O(4, TRUE), O(3, FALSE)>>, <<O(3, TRUE), O(1, FALSE)>> } }
+C07Cases == C07OnNames \cup C07Ties \cup C07Names \cup C07Plain \cup C07Aggr \cup C07Mixed \cup C07Pt \cup C07BoolKey \cup C07Big
 
 -----------------------------------------------------------------------------
 (* c09: GROUP BY and aggregates *)
